@@ -97,7 +97,13 @@ func runPrefix(c prefixCase) harness.Result {
 	} else if v == nil {
 		return harness.Fail("dispatcher returned (nil, nil) for %x", frame)
 	}
-	return harness.Result{NonTrivial: true, Labels: []string{fmt.Sprintf("fc%d", c.Req.FC)}, Weight: int64(2 * (len(frame) + 1))}
+	labels := []string{fmt.Sprintf("fc%d", c.Req.FC)}
+	if len(frame) >= 8 {
+		if crc := spec.RefCRC16(frame[:6]); frame[6] == byte(crc) && frame[7] == byte(crc>>8) {
+			labels = append(labels, "tcp-header-is-also-a-crc-valid-rtu-frame")
+		}
+	}
+	return harness.Result{NonTrivial: true, Labels: labels, Weight: int64(2 * (len(frame) + 1))}
 }
 
 var chkPrefix = harness.Define("classifier-prefixes",
@@ -305,6 +311,14 @@ func runHeader(c headerCase) harness.Result {
 	labels := []string{}
 	if accepted > 0 {
 		labels = append(labels, "some-accepted")
+	}
+	switch {
+	case c.Proto == 0:
+		labels = append(labels, "protocol-id:0")
+	case (c.Proto>>8+c.Proto)&0xFF == 0:
+		labels = append(labels, "protocol-id:bytes-sum-to-0-mod-256")
+	default:
+		labels = append(labels, "protocol-id:other")
 	}
 	return harness.Result{NonTrivial: accepted > 0, Labels: labels, Weight: 256}
 }
